@@ -12,7 +12,7 @@
    status list has num_players entries (UdpProtocol::on_input, Endpoint model); fewer than 2^31
    frames (Frame = i32).  [sp_hist ops] is the host's timeline: the values of frame 0, 1, 2, ...
    No bound on max_frames_behind / catchup_speed is needed for any of the statements. *)
-From GGRS Require Import Queue QueueProofs Sync P2P Session SessionProofs SessionSparse SessionProgress SessionSparse2 SessionTimeline SessionTimelineSparse.
+From GGRS Require Import Queue QueueProofs Sync P2P Session SessionProofs SessionSparse SessionProgress SessionSparse2 SessionTimeline SessionTimelineSparse SessionLockstep.
 From GGRS Require Import Base Consts Spectator SpectatorProofs.
 Open Scope Z_scope.
 
@@ -166,6 +166,19 @@ Proof.
   - exact (sparse_host_broadcast_is_confirmed_timeline predict Hi Hz).
   - exact (host_broadcast_is_confirmed_timeline predict Hi Hz).
 Qed.
+
+(* the same for a LOCKSTEP host (max_prediction = 0): there the broadcast of a call includes the frame whose local
+   input that same call registered *)
+Theorem C06_host_broadcast_is_confirmed_timeline_lockstep :
+  forall (predict : Z -> Z), (forall x, predict (predict x) = predict x) -> predict 0 = 0 ->
+  forall (ops : list sop) (n d : Z) (kinds : list pkind) (eps : list (list Z)) (nspec : nat) (p : p2p) (outs : list (pout * apires)),
+  0 <= d -> d + 4 <= INPUT_QUEUE_LENGTH -> 0 < n -> Z.of_nat (length kinds) = n -> players_only kinds -> (0 < nspec)%nat ->
+  srun_in predict (session_start n 0 false d kinds eps nspec) ops = Ok (p, outs) ->
+  exists gs, QSg false 0 d p gs /\
+    all_spec_sends outs = map (fun f => (f, held_at gs f)) (zrange_from 0 (Z.to_nat (ps_next_spec p))) /\
+    0 <= ps_next_spec p /\ s_last_confirmed (ps_sync p) + 1 <= ps_next_spec p /\
+    Forall (fun g : ghost => ps_next_spec p <= hlen (fst g)) gs.
+Proof. exact lockstep_host_broadcast. Qed.
 
 (* non-vacuity: one spectator; after the run of props/C01.v's demo the spectator has been sent frames 0
    and 1 with player 1's real inputs 7, 7 (never the predictions 0, 0 the host itself simulated first) *)
